@@ -8,6 +8,7 @@ import DdsModel.Proofs.QuantFinA
 import DdsModel.Proofs.QuantFinB
 import DdsModel.Proofs.QuantFinC
 import DdsModel.Proofs.QuantFinD
+import DdsModel.Proofs.QuantF32Thr
 namespace Dds.C12
 open Dds.Quant
 set_option maxRecDepth 100000
@@ -173,6 +174,232 @@ theorem n10_decoders_spec (c : Nat) (hc : c < 1024) :
 theorem int_roundtrip_u8_via_16 (v : Nat) (hv : v < 256) : n16_n8 (n8_n16 v) = v := by
   have h : allRange (fun v => n16_n8 (n8_n16 v) == v) 3 0 256 = true := by decide +kernel
   simpa using allRange_sound _ 3 0 256 h v (by omega) (by omega)
+
+/-! ## the binary32 evaluation of the quantisers: ALL 2^32 input bit patterns
+
+`nK::from_f32` and `s8::from_uf32` of formats.rs, operator by operator on the software binary32 (`QuantBits.*` of
+`EncTotal.lean`, `QuantF32.n8/n16`), against the exact quantiser `q m x = ⌊clamp(x)·(2^m−1) + ½⌋` of this file's
+other theorems, for EVERY binary32 bit pattern `b` (`toRat b` = its value).  Proof: the software float is monotone
+(`Proofs/F32Mono.lean`), so two kernel-checked points per output code (`Proofs/F32Thr*.lean`, generated tables,
+every entry validated by `decide +kernel`) settle all patterns in between; NaN, negative values, zeros and
+infinities are symbolic cases.
+
+RESULT.  The quantisers equal `q m` EXCEPT on a finite, exactly known set of patterns (`nKDev`: 2, 8, 16, 32, 128,
+512, 32 768 patterns for m = 2, 4, 5, 6, 8, 10, 16; 128 for the SNORM8 norm): each exception is the largest float
+below a tie `(2k−1)/(2(2^m−1))`; the binary32 product/sum rounds onto the tie, the stored code is `k` instead of
+`k−1`, and it decodes to MORE than half a step above the input — by less than the tie tolerance `2^-12/255` of the
+property reading (`…_known_deviation`).  `…_half_step` is the property's clause as it holds for every finite input.
+NaN gives the MAX code in the `x.min(1.0)` quantisers and 0 in `n8`, `n16` (observation O1; the property demands
+nothing for NaN). -/
+
+open Dds.CF32 Dds.EncTotal Dds.QuantF32 Dds.F32Thr in
+/-- `n8::from_f32` (`(x * 255.0 + 0.5) as u8`): every pattern outside `n8Dev` -/
+theorem n8_from_f32_spec_partial : ∀ b, b < 2 ^ 32 → b ∉ n8Dev →
+    QuantF32.n8 b = if isNaN b then 0 else if isInf b then (if isNeg b then 0 else 255) else q 8 (toRat b) := by
+  intro b hb hne
+  have := sat_all satQ_n8 b hb
+  rw [if_neg (show ¬ b ∈ devOf _ from hne), Nat.add_zero] at this
+  exact this
+
+open Dds.CF32 Dds.EncTotal Dds.QuantF32 Dds.F32Thr in
+theorem n8_from_f32_known_deviation : ∀ b, b ∈ n8Dev →
+    0 < b ∧ b < 0x7F800000 ∧ QuantF32.n8 b = q 8 (toRat b) + 1 ∧
+    1 / (2 * 255) < deq 8 (QuantF32.n8 b) - clamp01 (toRat b) ∧
+    deq 8 (QuantF32.n8 b) - clamp01 (toRat b) ≤ 1 / (2 * 255) + 1 / (4096 * 255) :=
+  fun b hm => dev_sat satQ_n8 (by decide) b hm
+
+open Dds.CF32 Dds.EncTotal Dds.QuantF32 Dds.F32Thr in
+theorem n8_from_f32_half_step : ∀ b, b < 2 ^ 32 → isNaN b = false → isInf b = false →
+    -(1 / (2 * 255)) ≤ deq 8 (QuantF32.n8 b) - clamp01 (toRat b) ∧
+    deq 8 (QuantF32.n8 b) - clamp01 (toRat b) ≤ 1 / (2 * 255) + (if b ∈ n8Dev then 1 / (4096 * 255) else 0) :=
+  fun b hb hn hi => half_step_sat satQ_n8 (by decide) b hb hn hi
+
+open Dds.CF32 Dds.EncTotal Dds.QuantF32 Dds.F32Thr in
+/-- `n16::from_f32` (`(x * 65535.0 + 0.5) as u16`): every pattern outside `n16Dev` (32 768 patterns) -/
+theorem n16_from_f32_spec_partial : ∀ b, b < 2 ^ 32 → b ∉ n16Dev →
+    QuantF32.n16 b = if isNaN b then 0 else if isInf b then (if isNeg b then 0 else 65535) else q 16 (toRat b) := by
+  intro b hb hne
+  have := sat_all satQ_n16 b hb
+  rw [if_neg (show ¬ b ∈ devOf _ from hne), Nat.add_zero] at this
+  exact this
+
+open Dds.CF32 Dds.EncTotal Dds.QuantF32 Dds.F32Thr in
+theorem n16_from_f32_known_deviation : ∀ b, b ∈ n16Dev →
+    0 < b ∧ b < 0x7F800000 ∧ QuantF32.n16 b = q 16 (toRat b) + 1 ∧
+    1 / (2 * 65535) < deq 16 (QuantF32.n16 b) - clamp01 (toRat b) ∧
+    deq 16 (QuantF32.n16 b) - clamp01 (toRat b) ≤ 1 / (2 * 65535) + 1 / (4096 * 255) :=
+  fun b hm => dev_sat satQ_n16 (by decide) b hm
+
+open Dds.CF32 Dds.EncTotal Dds.QuantF32 Dds.F32Thr in
+theorem n16_from_f32_half_step : ∀ b, b < 2 ^ 32 → isNaN b = false → isInf b = false →
+    -(1 / (2 * 65535)) ≤ deq 16 (QuantF32.n16 b) - clamp01 (toRat b) ∧
+    deq 16 (QuantF32.n16 b) - clamp01 (toRat b) ≤ 1 / (2 * 65535) + (if b ∈ n16Dev then 1 / (4096 * 255) else 0) :=
+  fun b hb hn hi => half_step_sat satQ_n16 (by decide) b hb hn hi
+
+open Dds.CF32 Dds.EncTotal Dds.QuantF32 Dds.F32Thr in
+/-- `n2::from_f32`: `(x.min(1.0) * 3.0 + 0.5) as u8`: every pattern outside `n2Dev` (NaN ↦ 3 through `min`) -/
+theorem n2_from_f32_spec_partial : ∀ b, b < 2 ^ 32 → b ∉ n2Dev →
+    QuantBits.n2 b = if isNaN b then 3 else if isInf b then (if isNeg b then 0 else 3) else q 2 (toRat b) := by
+  intro b hb hne
+  have := unorm_all minQ_n2 b hb
+  rw [if_neg (show ¬ b ∈ devOf _ from hne), Nat.add_zero] at this
+  exact this
+
+open Dds.CF32 Dds.EncTotal Dds.QuantF32 Dds.F32Thr in
+theorem n2_from_f32_known_deviation : ∀ b, b ∈ n2Dev →
+    0 < b ∧ b < 0x3F800000 ∧ QuantBits.n2 b = q 2 (toRat b) + 1 ∧
+    1 / (2 * 3) < deq 2 (QuantBits.n2 b) - clamp01 (toRat b) ∧
+    deq 2 (QuantBits.n2 b) - clamp01 (toRat b) ≤ 1 / (2 * 3) + 1 / (4096 * 255) :=
+  fun b hm => dev_min minQ_n2 (by decide) b hm
+
+open Dds.CF32 Dds.EncTotal Dds.QuantF32 Dds.F32Thr in
+theorem n2_from_f32_half_step : ∀ b, b < 2 ^ 32 → isNaN b = false → isInf b = false →
+    -(1 / (2 * 3)) ≤ deq 2 (QuantBits.n2 b) - clamp01 (toRat b) ∧
+    deq 2 (QuantBits.n2 b) - clamp01 (toRat b) ≤ 1 / (2 * 3) + (if b ∈ n2Dev then 1 / (4096 * 255) else 0) :=
+  fun b hb hn hi => half_step_min minQ_n2 (by decide) b hb hn hi
+
+open Dds.CF32 Dds.EncTotal Dds.QuantF32 Dds.F32Thr in
+/-- `n4::from_f32`: `(x.min(1.0) * 15.0 + 0.5) as u8`: every pattern outside `n4Dev` (NaN ↦ 15 through `min`) -/
+theorem n4_from_f32_spec_partial : ∀ b, b < 2 ^ 32 → b ∉ n4Dev →
+    QuantBits.n4 b = if isNaN b then 15 else if isInf b then (if isNeg b then 0 else 15) else q 4 (toRat b) := by
+  intro b hb hne
+  have := unorm_all minQ_n4 b hb
+  rw [if_neg (show ¬ b ∈ devOf _ from hne), Nat.add_zero] at this
+  exact this
+
+open Dds.CF32 Dds.EncTotal Dds.QuantF32 Dds.F32Thr in
+theorem n4_from_f32_known_deviation : ∀ b, b ∈ n4Dev →
+    0 < b ∧ b < 0x3F800000 ∧ QuantBits.n4 b = q 4 (toRat b) + 1 ∧
+    1 / (2 * 15) < deq 4 (QuantBits.n4 b) - clamp01 (toRat b) ∧
+    deq 4 (QuantBits.n4 b) - clamp01 (toRat b) ≤ 1 / (2 * 15) + 1 / (4096 * 255) :=
+  fun b hm => dev_min minQ_n4 (by decide) b hm
+
+open Dds.CF32 Dds.EncTotal Dds.QuantF32 Dds.F32Thr in
+theorem n4_from_f32_half_step : ∀ b, b < 2 ^ 32 → isNaN b = false → isInf b = false →
+    -(1 / (2 * 15)) ≤ deq 4 (QuantBits.n4 b) - clamp01 (toRat b) ∧
+    deq 4 (QuantBits.n4 b) - clamp01 (toRat b) ≤ 1 / (2 * 15) + (if b ∈ n4Dev then 1 / (4096 * 255) else 0) :=
+  fun b hb hn hi => half_step_min minQ_n4 (by decide) b hb hn hi
+
+open Dds.CF32 Dds.EncTotal Dds.QuantF32 Dds.F32Thr in
+/-- `n5::from_f32`: `(x.min(1.0) * 31.0 + 0.5) as u8`: every pattern outside `n5Dev` (NaN ↦ 31 through `min`) -/
+theorem n5_from_f32_spec_partial : ∀ b, b < 2 ^ 32 → b ∉ n5Dev →
+    QuantBits.n5 b = if isNaN b then 31 else if isInf b then (if isNeg b then 0 else 31) else q 5 (toRat b) := by
+  intro b hb hne
+  have := unorm_all minQ_n5 b hb
+  rw [if_neg (show ¬ b ∈ devOf _ from hne), Nat.add_zero] at this
+  exact this
+
+open Dds.CF32 Dds.EncTotal Dds.QuantF32 Dds.F32Thr in
+theorem n5_from_f32_known_deviation : ∀ b, b ∈ n5Dev →
+    0 < b ∧ b < 0x3F800000 ∧ QuantBits.n5 b = q 5 (toRat b) + 1 ∧
+    1 / (2 * 31) < deq 5 (QuantBits.n5 b) - clamp01 (toRat b) ∧
+    deq 5 (QuantBits.n5 b) - clamp01 (toRat b) ≤ 1 / (2 * 31) + 1 / (4096 * 255) :=
+  fun b hm => dev_min minQ_n5 (by decide) b hm
+
+open Dds.CF32 Dds.EncTotal Dds.QuantF32 Dds.F32Thr in
+theorem n5_from_f32_half_step : ∀ b, b < 2 ^ 32 → isNaN b = false → isInf b = false →
+    -(1 / (2 * 31)) ≤ deq 5 (QuantBits.n5 b) - clamp01 (toRat b) ∧
+    deq 5 (QuantBits.n5 b) - clamp01 (toRat b) ≤ 1 / (2 * 31) + (if b ∈ n5Dev then 1 / (4096 * 255) else 0) :=
+  fun b hb hn hi => half_step_min minQ_n5 (by decide) b hb hn hi
+
+open Dds.CF32 Dds.EncTotal Dds.QuantF32 Dds.F32Thr in
+/-- `n6::from_f32`: `(x.min(1.0) * 63.0 + 0.5) as u8`: every pattern outside `n6Dev` (NaN ↦ 63 through `min`) -/
+theorem n6_from_f32_spec_partial : ∀ b, b < 2 ^ 32 → b ∉ n6Dev →
+    QuantBits.n6 b = if isNaN b then 63 else if isInf b then (if isNeg b then 0 else 63) else q 6 (toRat b) := by
+  intro b hb hne
+  have := unorm_all minQ_n6 b hb
+  rw [if_neg (show ¬ b ∈ devOf _ from hne), Nat.add_zero] at this
+  exact this
+
+open Dds.CF32 Dds.EncTotal Dds.QuantF32 Dds.F32Thr in
+theorem n6_from_f32_known_deviation : ∀ b, b ∈ n6Dev →
+    0 < b ∧ b < 0x3F800000 ∧ QuantBits.n6 b = q 6 (toRat b) + 1 ∧
+    1 / (2 * 63) < deq 6 (QuantBits.n6 b) - clamp01 (toRat b) ∧
+    deq 6 (QuantBits.n6 b) - clamp01 (toRat b) ≤ 1 / (2 * 63) + 1 / (4096 * 255) :=
+  fun b hm => dev_min minQ_n6 (by decide) b hm
+
+open Dds.CF32 Dds.EncTotal Dds.QuantF32 Dds.F32Thr in
+theorem n6_from_f32_half_step : ∀ b, b < 2 ^ 32 → isNaN b = false → isInf b = false →
+    -(1 / (2 * 63)) ≤ deq 6 (QuantBits.n6 b) - clamp01 (toRat b) ∧
+    deq 6 (QuantBits.n6 b) - clamp01 (toRat b) ≤ 1 / (2 * 63) + (if b ∈ n6Dev then 1 / (4096 * 255) else 0) :=
+  fun b hb hn hi => half_step_min minQ_n6 (by decide) b hb hn hi
+
+open Dds.CF32 Dds.EncTotal Dds.QuantF32 Dds.F32Thr in
+/-- `n10::from_f32`: `(x.min(1.0) * 1023.0 + 0.5) as u16`: every pattern outside `n10Dev` (NaN ↦ 1023 through `min`) -/
+theorem n10_from_f32_spec_partial : ∀ b, b < 2 ^ 32 → b ∉ n10Dev →
+    QuantBits.n10 b = if isNaN b then 1023 else if isInf b then (if isNeg b then 0 else 1023) else q 10 (toRat b) := by
+  intro b hb hne
+  have := unorm_all minQ_n10 b hb
+  rw [if_neg (show ¬ b ∈ devOf _ from hne), Nat.add_zero] at this
+  exact this
+
+open Dds.CF32 Dds.EncTotal Dds.QuantF32 Dds.F32Thr in
+theorem n10_from_f32_known_deviation : ∀ b, b ∈ n10Dev →
+    0 < b ∧ b < 0x3F800000 ∧ QuantBits.n10 b = q 10 (toRat b) + 1 ∧
+    1 / (2 * 1023) < deq 10 (QuantBits.n10 b) - clamp01 (toRat b) ∧
+    deq 10 (QuantBits.n10 b) - clamp01 (toRat b) ≤ 1 / (2 * 1023) + 1 / (4096 * 255) :=
+  fun b hm => dev_min minQ_n10 (by decide) b hm
+
+open Dds.CF32 Dds.EncTotal Dds.QuantF32 Dds.F32Thr in
+theorem n10_from_f32_half_step : ∀ b, b < 2 ^ 32 → isNaN b = false → isInf b = false →
+    -(1 / (2 * 1023)) ≤ deq 10 (QuantBits.n10 b) - clamp01 (toRat b) ∧
+    deq 10 (QuantBits.n10 b) - clamp01 (toRat b) ≤ 1 / (2 * 1023) + (if b ∈ n10Dev then 1 / (4096 * 255) else 0) :=
+  fun b hb hn hi => half_step_min minQ_n10 (by decide) b hb hn hi
+
+open Dds.CF32 Dds.EncTotal Dds.QuantF32 Dds.F32Thr in
+/-- `s8::from_uf32`: the norm `(x.min(1.0) * 254.0 + 0.5) as u8` is the SNORM quantiser `sq 8` (254 steps) outside
+`s8Dev`, so the stored byte is `sencode 8` of the value (`from_norm` never overflows: C15 `s8_some`) -/
+theorem s8_from_uf32_spec_partial : ∀ b, b < 2 ^ 32 → b ∉ s8Dev →
+    QuantF32.s8norm b = (if isNaN b then 254 else if isInf b then (if isNeg b then 0 else 254) else sq 8 (toRat b)) ∧
+    (isNaN b = false → isInf b = false → QuantBits.s8 b = some (sencode 8 (toRat b))) := by
+  intro b hb hne
+  have h := unorm_all minQ_s8 b hb
+  rw [if_neg (show ¬ b ∈ devOf _ from hne), Nat.add_zero] at h
+  refine ⟨h, ?_⟩
+  intro hn hi
+  rw [hn, hi] at h
+  simp only [Bool.false_eq_true, if_false] at h
+  have e : sq 8 (toRat b) = qL 254 (toRat b) := rfl
+  have hle : qL 254 (toRat b) ≤ 254 := qL_le _ _
+  have hs : QuantBits.s8 b = snormFromNorm 8 (QuantBits.unorm QuantBits.k254 255 b) := rfl
+  rw [hs, h]
+  unfold sencode snormOfNorm snormFromNorm
+  rw [e, if_pos (by omega)]
+  show some ((qL 254 (toRat b) + 1 + 256 - 128) % 256) = some ((qL 254 (toRat b) + 1 + 128) % 256)
+  have : qL 254 (toRat b) + 1 + 256 - 128 = qL 254 (toRat b) + 1 + 128 := by omega
+  rw [this]
+
+open Dds.CF32 Dds.EncTotal Dds.QuantF32 Dds.F32Thr in
+theorem s8_from_uf32_known_deviation : ∀ b, b ∈ s8Dev →
+    0 < b ∧ b < 0x3F800000 ∧ QuantF32.s8norm b = sq 8 (toRat b) + 1 ∧
+    1 / (2 * 254) < deqL 254 (QuantF32.s8norm b) - clamp01 (toRat b) ∧
+    deqL 254 (QuantF32.s8norm b) - clamp01 (toRat b) ≤ 1 / (2 * 254) + 1 / (4096 * 255) :=
+  fun b hm => dev_min minQ_s8 (by decide) b hm
+
+open Dds.CF32 Dds.EncTotal Dds.QuantF32 Dds.F32Thr in
+theorem s8_from_uf32_half_step : ∀ b, b < 2 ^ 32 → isNaN b = false → isInf b = false →
+    -(1 / (2 * 254)) ≤ deqL 254 (QuantF32.s8norm b) - clamp01 (toRat b) ∧
+    deqL 254 (QuantF32.s8norm b) - clamp01 (toRat b) ≤ 1 / (2 * 254) + (if b ∈ s8Dev then 1 / (4096 * 255) else 0) :=
+  fun b hb hn hi => half_step_min minQ_s8 (by decide) b hb hn hi
+
+open Dds.QuantF32 in
+/-- the exception sets: explicit for 2 and 4 bits, sizes for the others (the lists themselves are the generated,
+kernel-validated tables `Proofs/F32ThrTab*.lean`) -/
+theorem from_f32_deviation_sets :
+    n2Dev = [0x3E2AAAAA, 0x3F555555] ∧
+    n4Dev = [0x3D088888, 0x3F111111, 0x3F222222, 0x3F333333, 0x3F444444, 0x3F555555, 0x3F666666, 0x3F777777] ∧
+    n5Dev.length = 16 ∧ n6Dev.length = 32 ∧ n8Dev.length = 128 ∧ n10Dev.length = 512 ∧ n16Dev.length = 32768 ∧
+    s8Dev.length = 128 :=
+  ⟨n2Dev_eq, n4Dev_eq, n5Dev_length, n6Dev_length, n8Dev_length, n10Dev_length, n16Dev_length, s8Dev_length⟩
+
+open Dds.CF32 Dds.EncTotal Dds.QuantF32 in
+example : QuantF32.n8 0x3F000000 = 128 ∧ QuantF32.n8 0x7FC00000 = 0 ∧ QuantBits.n5 0x7FC00000 = 31 ∧ QuantBits.n5 0x3F000000 = 16 ∧
+    QuantBits.n2 0x3E2AAAAA = 1 ∧ q 2 (toRat 0x3E2AAAAA) = 0 ∧ QuantBits.n2 0x3E2AAAAB = 1 ∧ q 2 (toRat 0x3E2AAAAB) = 1 ∧
+    QuantBits.n10 0xBF800000 = 0 ∧ QuantBits.n10 0x7F800000 = 1023 ∧ QuantF32.n16 0x40000000 = 65535 ∧
+    QuantBits.s8 0x3F000000 = some 0 ∧ sencode 8 (toRat 0x3F000000) = 0 := by decide +kernel
+open Dds.QuantF32 in
+example : 0x3E2AAAAA ∈ n2Dev ∧ 0x3E2AAAAB ∉ n2Dev ∧ 0x3F010101 ∈ n8Dev ∧ 0 ∉ n8Dev ∧ 0x37000080 ∈ n16Dev := by
+  decide +kernel
 
 /-! ## encoder selection over the pinned table (finite: 45 formats × 12 colour formats) -/
 
